@@ -1,17 +1,23 @@
 (* C08/Check.v — one harness case = one generated PBF file scanned unfiltered and under several
    scanner configurations (executable only).
 
-   Layout:  pool; blocks : list (block_d, tree);
-            unfiltered : list (obj, tol)            (procs = 1, no skip flags, no filters)
+   Layout:  pool; blocks : list (opt block_d, tree);
+            unfiltered : status, list (obj, tol)    (procs = 1, no skip flags, no filters)
             runs : list (skip_nodes skip_ways skip_rels, pred_node pred_way pred_rel,
                          procs list, status, list (obj, tol), stable)
             stable = every object the scanner returned still deep-equals, at the end of the scan,
-            the snapshot taken when it was returned.
-   Codes:   1  model scan_file (cfg) procs trees <> observed
-            2  property oracle: observed <> filter (keeps cfg) unfiltered, or not stable, or Err() <> nil,
-               or the unfiltered scan itself is not the sequence the file encodes (so that the
-               subsequence is taken from the right sequence; objects reach the consumer only after
-               their whole block was decoded, so in-block overwrites show up here)
+            the snapshot taken when it was returned (or, for the consumer that writes into and
+            appends to what it was given, the state that consumer left it in).
+            A block without a description (round 3) is a block the description language cannot
+            express (plain, non-dense Node messages): such a file is judged by the model on the
+            tree alone, and by the subsequence oracle whenever its unfiltered scan succeeds.
+   Codes:   1  model scan_file (cfg) procs trees <> observed (also for the unfiltered scan of a file
+               with an undescribed block)
+            2  property oracle: observed <> filter (keeps cfg) unfiltered, or not stable, or Err() <> nil
+               although the unfiltered scan succeeded, or (all blocks described) the unfiltered scan
+               itself is not the sequence the file encodes (so that the subsequence is taken from the
+               right sequence; objects reach the consumer only after their whole block was decoded,
+               so in-block overwrites show up here)
             3  canonical form of a tree <> encode_block of its description
             0  case does not parse *)
 From Coq Require Import ZArith List Bool.
@@ -27,25 +33,36 @@ Definition prun (pool : list bytes) : P run :=
   procs <- plist pint ;; st <- pint ;; objs <- plist (pobj pool) ;; stable <- pbool ;;
   ret (mkRun (cfg_of sn sw sr pn pw pr) procs st objs stable).
 
-Definition run_codes (trees : list msg) (unfiltered : list obj) (r : run) : list Z :=
+Definition agrees (c : cfg) (trees : list msg) (procs : list Z) (status : Z) (objs : list obj) : bool :=
+  forallb (fun p =>
+            match scan_file c (Z.to_nat p) trees with
+            | Ok q => (status =? 0) && objs_eqb q objs
+            | Err _ => status =? 1
+            | Panic => status =? 2
+            end) procs.
+
+Definition run_codes (trees : list msg) (ust : Z) (unfiltered : list obj) (r : run) : list Z :=
   let objs := map fst (ru_objs r) in
-  let j1 := forallb (fun p =>
-              match scan_file (ru_cfg r) (Z.to_nat p) trees with
-              | Ok q => (ru_status r =? 0) && objs_eqb q objs
-              | Err _ => ru_status r =? 1
-              | Panic => ru_status r =? 2
-              end) (ru_procs r) in
-  let j2 := (ru_status r =? 0) && ru_stable r && objs_eqb objs (filter (keeps (ru_cfg r)) unfiltered) in
+  let j1 := agrees (ru_cfg r) trees (ru_procs r) (ru_status r) objs in
+  let j2 := ru_stable r &&
+            (if ust =? 0 then (ru_status r =? 0) && objs_eqb objs (filter (keeps (ru_cfg r)) unfiltered)
+             else true) in
   code_if j1 1 ++ code_if j2 2.
 
 Definition check_case (t : toks) : list Z :=
-  match parse_all (pool <- plist pbytes ;; bs <- plist (ppair pblock_d ptree) ;;
-                   un <- plist (pobj pool) ;; rs <- plist (prun pool) ;; ret (bs, un, rs)) t with
+  match parse_all (pool <- plist pbytes ;; bs <- plist (ppair (popt pblock_d) ptree) ;;
+                   ust <- pint ;; un <- plist (pobj pool) ;; rs <- plist (prun pool) ;; ret (bs, ust, un, rs)) t with
   | None => [0]
-  | Some (bs, un, rs) =>
+  | Some (bs, ust, un, rs) =>
       let trees := map snd bs in
-      let j3 := forallb (fun b => msg_eqb (canon_block (snd b)) (encode_block (fst b))) bs in
-      let j2u := objs_eqb (map fst un) (flat_map (fun b => elements (fst b)) bs) && forallb snd un in
-      nodup Z.eq_dec (flat_map (run_codes trees (map fst un)) rs ++ code_if j2u 2 ++ code_if j3 3
+      let described := forallb (fun b => match fst b with Some _ => true | None => false end) bs in
+      let j3 := forallb (fun b => match fst b with
+                                  | Some d => msg_eqb (canon_block (snd b)) (encode_block d)
+                                  | None => true end) bs in
+      let j1u := described || agrees cfg_all trees [1] ust (map fst un) in
+      let j2u := negb described ||
+                 ((ust =? 0) && forallb snd un &&
+                  objs_eqb (map fst un) (flat_map (fun b => match fst b with Some d => elements d | None => [] end) bs)) in
+      nodup Z.eq_dec (flat_map (run_codes trees ust (map fst un)) rs ++ code_if j1u 1 ++ code_if j2u 2 ++ code_if j3 3
                       ++ code_if (negb (match rs with [] => true | _ => false end)) 0)
   end.
